@@ -50,6 +50,8 @@ def from_pytd(t, lits=None):
     return ["lit", name, []]
   if isinstance(t, pytd.TypeParameter):    # incl. ParamSpec
     return ["tvar", t.full_name, []]
+  if isinstance(t, pytd.Annotated):        # metadata (e.g. 'property') does not change the denotation
+    return from_pytd(t.base_type, lits)
   if isinstance(t, pytd.UnionType):
     return ["union", "", [from_pytd(x, lits) for x in t.type_list]]
   if isinstance(t, pytd.TupleType):
